@@ -139,6 +139,10 @@ type DCase struct {
 	// again.  Its id relates to the target's ("10") as a prefix ("1"), an extension ("100"), a path
 	// below it ("10/0") or not at all ("2"); the life of one actor is nothing to the deliveries of another.
 	Neighbour string `json:"neighbour,omitempty"`
+	// Via (per sender, optional): "" = Engine.Send / SendWithSender (or Context.Send when via_actor),
+	// "local" = Engine.SendLocal, "forward" = the messages are sent to a relay actor that hands each on
+	// with Context.Forward (the relay is then the sender the target sees)
+	Via []string `json:"via,omitempty"`
 }
 
 type dmsg struct{ G, Seq int }
@@ -205,8 +209,30 @@ func runDelivery(c DCase) (map[string]int, error) {
 		from, to int
 		done     chan struct{}
 	}
+	via := func(g int) string {
+		if g < len(c.Via) {
+			return c.Via[g]
+		}
+		return ""
+	}
 	relays := make([]*actor.PID, n)
+	fwd := make([]*actor.PID, n)
 	for g := 0; g < n; g++ {
+		if via(g) == "forward" {
+			fwd[g] = e.SpawnFunc(func(ctx *actor.Context) {
+				switch m := ctx.Message().(type) {
+				case dmsg:
+					ctx.Forward(target)
+				case chan struct{}:
+					close(m)
+				}
+			}, "forwarder", actor.WithID(fmt.Sprint(g)))
+			feat["sent-through-Context.Forward"]++
+			continue
+		}
+		if via(g) == "local" {
+			feat["sent-through-SendLocal"]++
+		}
 		if c.Actor[g] {
 			g := g
 			relays[g] = e.SpawnFunc(func(ctx *actor.Context) {
@@ -237,10 +263,25 @@ func runDelivery(c DCase) (map[string]int, error) {
 					}
 					return
 				}
+				if fwd[g] != nil {
+					for s := from(g); s < to(g); s++ {
+						e.Send(fwd[g], dmsg{g, s})
+					}
+					// the phase is over when the forwarder has handed everything on
+					fin := make(chan struct{})
+					e.Send(fwd[g], fin)
+					if err := waitCh(fin, "forwarder actor did not finish"); err != nil {
+						errs <- err
+					}
+					return
+				}
 				for s := from(g); s < to(g); s++ {
-					if p := senderPID(g); p != nil {
+					switch p := senderPID(g); {
+					case via(g) == "local":
+						e.SendLocal(target, dmsg{g, s}, p)
+					case p != nil:
 						e.SendWithSender(target, dmsg{g, s}, p)
-					} else {
+					default:
 						e.Send(target, dmsg{g, s})
 					}
 				}
@@ -337,6 +378,9 @@ func runDelivery(c DCase) (map[string]int, error) {
 		if relays[g] != nil {
 			want = relays[g]
 		}
+		if fwd[g] != nil {
+			want = fwd[g]
+		}
 		if (want == nil) != (r.sender == nil) || (want != nil && !want.Equals(r.sender)) {
 			return nil, fmt.Errorf("delivery %d: message %+v sent with sender %v arrived with sender %v", i, r.m, want, r.sender)
 		}
@@ -386,6 +430,7 @@ func genDelivery(t *rapid.T) DCase {
 		c.PhaseA = append(c.PhaseA, rapid.IntRange(lo, hi).Draw(t, "a"))
 		c.PhaseB = append(c.PhaseB, rapid.IntRange(0, hi).Draw(t, "b"))
 		c.Actor = append(c.Actor, rapid.IntRange(0, 3).Draw(t, "actor") == 0)
+		c.Via = append(c.Via, rapid.SampledFrom([]string{"", "", "", "", "local", "forward"}).Draw(t, "via"))
 	}
 	c.DupSpawn = rapid.IntRange(0, 3).Draw(t, "dupspawn") == 0
 	c.Neighbour = rapid.SampledFrom([]string{"", "", "", "1", "1", "100", "10/0", "2"}).Draw(t, "neighbour")
